@@ -35,14 +35,20 @@ type c17Dep struct {
 	dest  uint8
 	res   byte
 	nonce uint64
+	bad   byte // 0, or how handling THIS deposit goes wrong in the RetryV1 path: '!' the deposit handler panics,
+	//            '?' it returns an error, '#' it returns a message whose Data is not TransferMessageData
 }
 
 // deps: `dest.res.nonce` items separated by ','
 func c17Deps(s string) []c17Dep {
 	ds := []c17Dep{}
 	for _, it := range items(s, ",") {
+		bad := byte(0)
+		if n := len(it); n > 0 && strings.ContainsRune("!?#", rune(it[n-1])) {
+			bad, it = it[n-1], it[:n-1]
+		}
 		f := strings.Split(it, ".")
-		ds = append(ds, c17Dep{uint8(u64(f[0])), byte(u64(f[1])), u64(f[2])})
+		ds = append(ds, c17Dep{uint8(u64(f[0])), byte(u64(f[1])), u64(f[2]), bad})
 	}
 	return ds
 }
@@ -156,7 +162,7 @@ func (l *c17Listener) FetchRetryV2Events(ctx context.Context, a common.Address, 
 func (l *c17Listener) FetchRetryDepositEvents(ev events.RetryV1Event, a common.Address, conf *big.Int) ([]events.Deposit, error) {
 	out := []events.Deposit{}
 	for i, d := range l.deps {
-		out = append(out, events.Deposit{DestinationDomainID: d.dest, ResourceID: c3Resource(d.res), DepositNonce: d.nonce, Data: []byte{byte(i)}})
+		out = append(out, events.Deposit{DestinationDomainID: d.dest, ResourceID: c3Resource(d.res), DepositNonce: d.nonce, Data: []byte{byte(i), d.bad}})
 	}
 	return out, nil
 }
@@ -164,6 +170,15 @@ func (l *c17Listener) FetchRetryDepositEvents(ev events.RetryV1Event, a common.A
 type c17DepositHandler struct{}
 
 func (c17DepositHandler) HandleDeposit(src, dst uint8, nonce uint64, res [32]byte, calldata, resp []byte, msgID string, ts time.Time) (*message.Message, error) {
+	switch calldata[1] {
+	case '!':
+		var short []byte
+		_ = short[int(calldata[0])+32] // slice bounds panic, as malformed calldata produces in the real handlers
+	case '?':
+		return nil, errors.New("deposit cannot be handled")
+	case '#':
+		return message.NewMessage(src, dst, "not transfer data", msgID, transfer.TransferMessageType, ts), nil
+	}
 	return message.NewMessage(src, dst, transfer.TransferMessageData{
 		DepositNonce: nonce, ResourceId: res, Metadata: map[string]interface{}{"idx": int(calldata[0])}, Type: transfer.FungibleTransfer,
 	}, msgID, transfer.TransferMessageType, ts), nil
@@ -285,7 +300,7 @@ func init() {
 		}
 	}
 	// hist <n> <ops>   '/'-separated:
-	//   D<nonces>[@f]  proposalsForExecution          -> s:<nonces> | e
+	//   D<nonces>[@f]  the exported Execute; selected = what reaches the metadata upload -> s:<nonces> | e
 	//   S<id>[=<nonces>][@f] / F…  outcome of the execution started by delivery #id recorded (executed / failed); with
 	//                  =<nonces> only of the resource group holding these nonces (Execute runs one session per resource) -> d
 	//   T<id>          that execution never gets its signatures: the real watchExecution runs into its signing
@@ -311,18 +326,34 @@ func init() {
 					res = "hang"
 					break
 				}
-				props, err := b.exe.VerifC17ProposalsForExecution(c3BtcProps(c3Nonces(arg), "", "m"), "m")
-				if err != nil {
-					res = "e"
-					started = append(started, nil)
-				} else {
-					xs := []string{}
-					for _, p := range props {
-						xs = append(xs, utoa(p.Data.DepositNonce))
+				var props []*btcExecutor.BtcTransferProposal
+				if nonces := c3Nonces(arg); len(nonces) == 0 {
+					// (the exported Execute panics on an empty delivery, which the relayer never produces)
+					var err error
+					props, err = b.exe.VerifC17ProposalsForExecution(c3BtcProps(nonces, "", "m"), "m")
+					if err != nil {
+						res = "e"
+					} else {
+						res = "s:-"
 					}
-					res = "s:" + joinOr(xs, ",")
-					started = append(started, props)
+				} else {
+					// the OUTERMOST entry point: what Execute goes on to sign is what reaches the metadata upload
+					err := b.exe.Execute(c3BtcProps(nonces, "", "m"))
+					signed := b.up.take()
+					switch {
+					case signed != "-":
+						res = "s:" + strings.ReplaceAll(signed, ";", ",")
+						for _, x := range c3Nonces(strings.ReplaceAll(signed, ";", ",")) {
+							props = append(props, &btcExecutor.BtcTransferProposal{Source: c3Src, Destination: c3Dst,
+								Data: btcExecutor.BtcTransferProposalData{DepositNonce: x, Amount: 1000 + x, Recipient: c3Recipient, ResourceId: c3Resource('a')}})
+						}
+					case err != nil:
+						res = "e"
+					default:
+						res = "s:-"
+					}
 				}
+				started = append(started, props)
 			case 'S', 'F':
 				if !b.exe.VerifC17MutexFree() {
 					res = "hang"
@@ -352,7 +383,7 @@ func init() {
 			case 'R':
 				ds := []c17Dep{}
 				for _, x := range c3Nonces(arg) {
-					ds = append(ds, c17Dep{c3Dst, 'a', x})
+					ds = append(ds, c17Dep{c3Dst, 'a', x, 0})
 				}
 				em, err := retry.FilterDeposits(ps, c17ByDomain(ds), c3Resource('a'), c3Dst)
 				if err != nil {
@@ -499,6 +530,32 @@ func genC17(g *G) {
 	// ---- RetryV2: the request carried by the retry message
 	for i := 0; i < g.Count(150, 3000); i++ {
 		g.Emit("retryv2", itoa(g.Intn(4)), itoa(g.Intn(5)), itoa(g.Intn(5)), utoa([]uint64{0, 1, 77, 1 << 40}[g.Intn(4)]), itoa(1+g.Intn(3)))
+	}
+	// ---- RetryV1: a deposit of the retried transaction that cannot be handled (handler panics / errs / yields foreign
+	//      data) must not keep its neighbours from being re-emitted
+	for i := 0; i < g.Count(300, 8000); i++ {
+		n := 2 + g.Intn(5)
+		deps := []string{}
+		var st strings.Builder
+		for j := 0; j < n; j++ {
+			d := g.Pick([]string{"2", "2", "3"}) + "." + g.Pick([]string{"1", "2"}) + "." + itoa(j)
+			if g.Intn(3) == 0 {
+				d += g.Pick([]string{"!", "?", "#"})
+			}
+			deps = append(deps, d)
+			st.WriteByte("mmppfe"[g.Intn(6)])
+		}
+		fl := "-"
+		if g.Intn(3) == 0 {
+			fl = c17Faults(g, 2*n, 4)
+		}
+		g.Emit("retryv1", strings.Join(deps, ","), st.String(), fl)
+	}
+	for _, bad := range []string{"!", "?", "#"} {
+		for _, st := range []string{"mm", "pm", "mp", "ep", "pp"} {
+			g.Emit("retryv1", "2.1.0"+bad+",2.1.1", st, "-")
+			g.Emit("retryv1", "2.1.0,2.1.1"+bad+",3.1.2", st+"p", "-")
+		}
 	}
 	// ---- the three RetryMessageHandlers
 	for i := 0; i < g.Count(900, 30000); i++ {
